@@ -267,7 +267,63 @@ def node_released_after_tag(F, R):
     R.floor('structs owning a port_tag', n, 8)
 
 
+def receiver_storage_capacity(F, R):
+    """Receiver (subscriber / server / client): the slot map that stores the connections holds the active ones AND the expired ones that still
+    have undelivered data or borrowed samples: capacity(connection_storage) = capacity(connections) + capacity(to_be_removed_connections).
+    A smaller storage panics ('connection storage capacity exceeded') in a live port when publishers leave while their samples are held."""
+    n = 0
+    for f in F.find_fns(r'^iceoryx2::port::(subscriber::Subscriber|server::Server|client::Client)::<.*>::new$'):
+        for a in lib.agg_sites(f, r'port::details::receiver::Receiver$'):
+            names = a.node[2][1][3]
+            if not all(x in names for x in ('connection_storage', 'to_be_removed_connections', 'connections')):
+                continue
+            n += 1
+            def inner(field, callee_pat, idx):
+                t = sym(f, a.node[2][2][names.index(field)])
+                sub = lib.find_subterm(t, lambda x: isinstance(x, tuple) and x and x[0] == 'call' and re.search(callee_pat, str(x[1])))
+                if sub is None:
+                    return None
+                args = sub[2]
+                return args[idx] if len(args) > idx else None
+            cs = inner('connection_storage', r'^iceoryx2_bb_container::slotmap::\w+::<.*>::new$', 0)
+            act = inner('connections', r'^iceoryx2_bb_container::vector::\w+::\w+::<.*>::from_fn(::<.*>)?$', 1)
+            exp = inner('to_be_removed_connections', r'^iceoryx2_bb_container::vector::\w+::\w+::<.*>::new$', 1)
+            ok = False
+            detail = 'anchor-missing: could not extract the three capacities'
+            if cs is not None and act is not None and exp is not None:
+                want = core.sym_norm(('+', act, exp))
+                got = core.sym_norm(cs)
+                ok = sym_nstr(want) == sym_nstr(got)
+                if not ok:
+                    try:   # a LARGER storage is fine: compare as polynomials over the uninterpreted capacities
+                        ok = core.poly_ge(core.poly(got), core.poly(want))
+                    except Exception:
+                        pass
+                detail = 'capacity(connection_storage) = %s ; capacity(connections) + capacity(to_be_removed_connections) = %s' % (sym_nstr(got)[:110], sym_nstr(want)[:110])
+            R.ob('SYM-EQ', 'SYM-EQ::%s::connection-storage-holds-active+expired' % fnkey(f), ok, detail, a.where, f)
+    R.floor('Receiver constructions', n, 3)
+
+
+def service_tag_removed_with_last_handle(F, R):
+    """ServiceState::drop: when a node closes its last handle to a service, its service tag is removed on EVERY path (whether or not the
+    service itself survives): a tag that stays keeps the node directory non-empty, so the node's own shutdown cannot remove it."""
+    ds = F.find_fns(r'^<iceoryx2::service::ServiceState<.*> as core::ops::drop::Drop>::drop$')
+    n = 0
+    for d in ds:
+        for c in [d] + F.closures_of(d):
+            dereg = c.calls(r'DynamicConfig::deregister_node_id$')
+            tag = c.calls(r'stale_resource_cleanup::remove_service_tag$|::remove_service_tag$')
+            if not dereg:
+                continue
+            n += 1
+            pth = c.exists_path(None, c.ret_sites(), tag, from_entry=True)
+            R.ob('MUST-CALL', 'MUST-CALL::%s::remove_service_tag-on-every-path' % fnkey(c), bool(tag) and pth is None, 'every path through the last-handle closure removes the node\'s service tag (%d site(s))%s' % (len(tag), '' if pth is None else ' -- a path skips it: %s' % pth), tag[0].where if tag else '%s:%s' % (c.file, c.line), c)
+    R.floor('last-handle closures of ServiceState::drop', n, 1)
+
+
 def check(F, R, tier):
+    service_tag_removed_with_last_handle(F, R)
+    receiver_storage_capacity(F, R)
     node_released_after_tag(F, R)
     fallback_differs(F, R)
     accumulator_loops(F, R)
